@@ -732,7 +732,7 @@ func (e *Engine) Differential(K int, report map[string]bool) *DiffResult {
 					return
 				}
 				ls := e.lstate(k)
-				if ls.Dead || (e.Cfg.Heights <= 1 && len(ls.Commits) > 0) {
+				if e.finished(ls) {
 					continue
 				}
 				var ln *liveNode
